@@ -294,9 +294,10 @@ fn forge_something(s: &mut Sess, tr: &mut Trace, r: &mut Rng, nclients: usize, n
         1 => syn_bytes(*r.pick(&[0u8, 2, 4, 255]), r.next() as u32, 2_000_000, 1_000_000, 1_000_000),
         2 => syn_bytes(3, r.next() as u32, *r.pick(&[0u32, 1, u32::MAX]), *r.pick(&[0u32, 1, 1_000_000, u32::MAX]), *r.pick(&[0u32, 1, 1_000_000, u32::MAX])),
         3 => {
-            // undersized SYN: right type byte, short length, valid CRC
-            let mut b = syn_bytes(3, r.next() as u32, 2_000_000, 1_000_000, 1_000_000);
-            b.truncate(*r.pick(&[21usize, 100, 1471]));
+            // undersized SYN: right type byte, short length, valid CRC; limits of every size class (a parser that
+            // ties the required padding to a field must still insist on the full frame)
+            let mut b = syn_bytes(3, r.next() as u32, *r.pick(&[2_000_000u32, 0, 1]), *r.pick(&[1_000_000u32, 0, 1, 4, 100, 1448, 65536]), *r.pick(&[1_000_000u32, u32::MAX, 65536]));
+            b.truncate(*r.pick(&[21usize, 22, 25, 100, 1471]));
             let n = b.len();
             let crc = uv::crc_compute(&b[..n - 4]);
             b[n - 4] = (crc >> 24) as u8; b[n - 3] = (crc >> 16) as u8; b[n - 2] = (crc >> 8) as u8; b[n - 1] = crc as u8;
